@@ -326,10 +326,14 @@ def check(ctx):
     for nm, idx in (('get_resource_usage', 0), ('get_resource_capacity', 1)):
         fn = P.method(RM, nm)[1]
         o.count()
-        rets = [ast.unparse(r.value) for r in ast.walk(fn) if isinstance(r, ast.Return) and r.value is not None]
         k = fn.args.args[1].arg
-        if f'self._resources[{k}][{idx}]' not in rets:
-            o.fail(P, f'ResourceManager.{nm}', f'return self._resources[{k}][{idx}]', f'{nm} does not report component {idx} of the pool entry', file=RM.mod.path, line=fn.lineno)
+        known = lookup_cases(fn, 'self._resources', k, True)
+        unknown = lookup_cases(fn, 'self._resources', k, False)
+        if known != {f'self._resources[{k}][{idx}]'}:
+            o.fail(P, f'ResourceManager.{nm}', f'return self._resources[{k}][{idx}]', f'{nm} does not report component {idx} of the pool entry'
+                   + (f' (for a known resource it returns {sorted(known)})' if known else ''), file=RM.mod.path, line=fn.lineno)
+        elif unknown != {'0.0'}:
+            o.fail(P, f'ResourceManager.{nm}', 'return 0.0', f'{nm} does not report 0.0 for a resource that was never added (it returns {sorted(unknown)})', file=RM.mod.path, line=fn.lineno)
         else:
             o.witness(nm)
 
@@ -1093,3 +1097,110 @@ def merge_partners(ctx, RR):
                 o.witness(('guarded', nid))
     o.require(n_changes >= 1, 'merge never changes the holdings in the abstract exploration')
     return o
+
+
+def lookup_cases(fn, mapping, key, known):
+    """texts of the values `fn` returns when `key` is (known=True) / is not (False) a key of `mapping` -- the spellings of a look-up with a
+    default are resolved: try / except KeyError, `m.get(k, d)`, `k in m` tests (statement or conditional expression), `x = m.get(k)` followed
+    by a None test.  'RAISE' stands for an uncaught KeyError, '?' for a construct that is not understood."""
+    defs = single_defs(fn)
+    RAISE = 'RAISE'
+
+    def is_map(e):
+        return ast.unparse(e) == mapping
+
+    def is_key(e):
+        return ast.unparse(e) == key
+
+    def member_test(t):
+        """True if t <=> key in mapping, False if t <=> key not in mapping, None otherwise"""
+        t = subst(t, defs)
+        if isinstance(t, ast.UnaryOp) and isinstance(t.op, ast.Not):
+            r = member_test(t.operand)
+            return None if r is None else not r
+        if isinstance(t, ast.Compare) and len(t.ops) == 1:
+            l, r, op = t.left, t.comparators[0], t.ops[0]
+            if is_key(l) and is_map(r) and isinstance(op, (ast.In, ast.NotIn)):
+                return isinstance(op, ast.In)
+            for a, b in ((l, r), (r, l)):
+                if isinstance(b, ast.Constant) and b.value is None and isinstance(a, ast.Call) and isinstance(a.func, ast.Attribute) and a.func.attr == 'get' \
+                        and is_map(a.func.value) and len(a.args) == 1 and is_key(a.args[0]) and isinstance(op, (ast.Is, ast.IsNot, ast.Eq, ast.NotEq)):
+                    return isinstance(op, (ast.IsNot, ast.NotEq))
+        return None
+
+    class Res(ast.NodeTransformer):
+        def visit_IfExp(self, n):
+            r = member_test(n.test)
+            if r is None:
+                return self.generic_visit(n)
+            return self.visit(n.body if r == known else n.orelse)
+
+        def visit_Call(self, n):
+            self.generic_visit(n)
+            if isinstance(n.func, ast.Attribute) and n.func.attr == 'get' and is_map(n.func.value) and 1 <= len(n.args) <= 2 and is_key(n.args[0]) and not n.keywords:
+                if known:
+                    return ast.Subscript(value=n.func.value, slice=n.args[0], ctx=ast.Load())
+                return n.args[1] if len(n.args) == 2 else ast.Constant(None)
+            return n
+
+        def visit_Subscript(self, n):
+            self.generic_visit(n)
+            if isinstance(n.value, ast.Tuple) and isinstance(n.slice, ast.Constant) and isinstance(n.slice.value, int) and 0 <= n.slice.value < len(n.value.elts):
+                return n.value.elts[n.slice.value]
+            return n
+
+    def value(e):
+        import copy
+        e = Res().visit(copy.deepcopy(subst(e, defs)))
+        ast.fix_missing_locations(e)
+        if not known and any(isinstance(x, ast.Subscript) and is_map(x.value) and is_key(x.slice) for x in ast.walk(e)):
+            return RAISE
+        return ast.unparse(e)
+
+    def block(stmts):
+        """(set of outcomes, falls through)"""
+        out = set()
+        for st in stmts:
+            if isinstance(st, ast.Return):
+                out.add(value(st.value) if st.value is not None else 'None')
+                return out, False
+            if isinstance(st, ast.Expr) and isinstance(st.value, ast.Constant):
+                continue
+            if isinstance(st, ast.Assign) and len(st.targets) == 1 and isinstance(st.targets[0], (ast.Name, ast.Tuple)):
+                if value(st.value) == RAISE:
+                    out.add(RAISE)
+                    return out, False
+                continue
+            if isinstance(st, ast.If):
+                r = member_test(st.test)
+                branches = [st.body, st.orelse] if r is None else [st.body if r == known else st.orelse]
+                falls = False
+                for b in branches:
+                    o2, f2 = block(b)
+                    out |= o2
+                    falls = falls or f2
+                if not falls:
+                    return out, False
+                continue
+            if isinstance(st, ast.Try) and not st.finalbody and not st.orelse:
+                o2, f2 = block(st.body)
+                if RAISE in o2:
+                    o2.discard(RAISE)
+                    hs = [h for h in st.handlers if h.type is None or ast.unparse(h.type) in ('KeyError', 'LookupError', 'Exception')]
+                    if hs:
+                        o3, f3 = block(hs[0].body)
+                        o2 |= o3
+                        f2 = f2 or f3
+                    else:
+                        o2.add(RAISE)
+                out |= o2
+                if not f2:
+                    return out, False
+                continue
+            out.add('?')
+            return out, False
+        return out, True
+    outs, falls = block(fn.body)
+    if falls:
+        outs.add('None')
+    return outs
